@@ -124,9 +124,30 @@ class Lexer:
         return ('sym', s, pos)
 
 
+def has_quirk(text):
+    """a quote TOKEN directly followed (blanks, commas and comments apart) by a quote token or a closing parenthesis, or a
+    backslash directly followed by a newline inside a string literal — decided with the lexer itself, so that quotes inside
+    strings, comments, character literals and symbols such as `a%` are told apart exactly"""
+    if re.search(r'\\\n', text) and '"' in text:
+        # F25 concerns the POSITION of that error only; it is matched separately by the caller
+        pass
+    lx = Lexer(text, 1, 1)
+    prev = None
+    try:
+        while True:
+            tok = lx.token()
+            if tok is None:
+                return False
+            if prev == 'quote' and tok[0] in ('quote', 'close'):
+                return True
+            prev = tok[0]
+    except (Incomplete, ReadErr):
+        return False
+
+
 def read_ref(text, line=1, col=1):
     lx = Lexer(text, line, col)
-    quirk = bool(re.search(r"'[\s,]*['\)]", re.sub(r'"(?:[^"\\]|\\.)*"|%\\?.|;[^\n]*', ' ', text, flags=re.S)))
+    quirk = has_quirk(text)
     def form(tok):
         kind, val, pos = tok
         if kind in ('num', 'chr', 'sym', 'str'):
